@@ -18,17 +18,17 @@ import (
 
 // History is one generated single-validator chain scenario (what the application and the mempool do per height).
 type History struct {
-	Heights   int64
-	Txs       map[int64][]types.Tx
-	Salted    bool // after a restart the mempool offers different transactions
-	AddValAt  int64
-	ParamAt   int64
-	RetainAt  int64
+	Heights  int64
+	Txs      map[int64][]types.Tx
+	Salted   bool // after a restart the mempool offers different transactions
+	AddValAt int64
+	ParamAt  int64
+	RetainAt int64
 	// the retain height the application returns at RetainAt, relative to that height: -1 keeps the previous block,
 	// 0 keeps only the block being committed, +1 lies above the tip (the block store refuses it)
 	RetainDelta int64
 	GenTime     time.Time
-	PowerSelf int64
+	PowerSelf   int64
 	// four-validator mode: the node is validator 0 of 4, the others are played by the harness
 	// at the first restart the application reports an older committed height (restored from its own older state)
 	AppRollback int64
@@ -219,7 +219,7 @@ func drive(n *PNode, target int64, maxFires int, marks *[]Mark, trace *[]string)
 		fired, ok := n.Fire()
 		if trace != nil {
 			f := fingerprint(n.CS)
-			*trace = append(*trace, fmt.Sprintf("inc%d fire=%v alive=%v -> %d/%d/%d store=%d armed=%v(%d/%d/%v) ops=%d", n.P.Inc, fired, ok, f.H, f.R, f.S, n.BlockStore.Height(), n.Ticker.Armed, n.Ticker.Cur.Height, n.Ticker.Cur.Round, n.Ticker.Cur.Step, n.C.N)+fmt.Sprintf(" last-ops=%v", tailLabels(n.C.Labels, 6)))
+			*trace = append(*trace, fmt.Sprintf("inc%d fire=%v alive=%v -> %d/%d/%d store=%d armed=%v(%d/%d/%v) ops=%d", n.P.Inc, fired, ok, f.H, f.R, f.S, n.BlockStore.Height(), n.Ticker.IsArmed(), n.Ticker.Current().Height, n.Ticker.Current().Round, n.Ticker.Current().Step, n.C.N)+fmt.Sprintf(" last-ops=%v", tailLabels(n.C.Labels, 6)))
 		}
 		if !ok {
 			return false, false
